@@ -4,9 +4,11 @@ import (
 	"bytes"
 	"context"
 	"fmt"
+	"net/http"
 	"net/http/httptest"
 	"strings"
 	"sync"
+	"sync/atomic"
 	"testing"
 
 	goat "github.com/avos-io/goat"
@@ -30,6 +32,29 @@ func genC01Net(t *rapid.T) C01Net {
 	return c
 }
 
+// refusalCounter wraps an HTTP handler and counts the requests it answered with 400 Bad Request: the receiving end of
+// the HTTP transport answers so exactly when it could not make an envelope out of what was posted.
+type refusalCounter struct {
+	h http.Handler
+	n atomic.Int64
+}
+
+type statusWriter struct {
+	http.ResponseWriter
+	rc *refusalCounter
+}
+
+func (w statusWriter) WriteHeader(code int) {
+	if code == http.StatusBadRequest {
+		w.rc.n.Add(1)
+	}
+	w.ResponseWriter.WriteHeader(code)
+}
+
+func (rc *refusalCounter) ServeHTTP(w http.ResponseWriter, r *http.Request) {
+	rc.h.ServeHTTP(statusWriter{w, rc}, r)
+}
+
 func execC01Net(t *testing.T, c C01Net) (v Verdict) {
 	svc := kit.NewSvc()
 	var mu sync.Mutex
@@ -46,22 +71,27 @@ func execC01Net(t *testing.T, c C01Net) (v Verdict) {
 	ctx, cancel := context.WithTimeout(context.Background(), netBudget)
 	defer cancel()
 	var cc *goat.ClientConn
+	refused := func() int64 { return 0 }
+	serveEnded := make(chan error, 1)
 	switch c.Transport {
 	case "websocket":
 		cl, sv, _, _, cleanup := wsPair(t)
 		defer cleanup()
-		go srv.Serve(ctx, sv)
+		go func() { serveEnded <- srv.Serve(ctx, sv) }()
 		cc = goat.NewClientConn(cl, "c0", kit.ServerName)
 	case "http":
 		var clientAddr, serverAddr string
 		gohS := goat.NewGoatOverHttp(func(id string, rw goat.RpcReadWriter) { go srv.Serve(ctx, rw) }, func(src string) (string, error) { return clientAddr, nil })
 		defer gohS.Cancel()
-		hsS := httptest.NewServer(gohS)
+		refS := &refusalCounter{h: gohS}
+		hsS := httptest.NewServer(refS)
 		defer hsS.Close()
 		serverAddr = strings.TrimPrefix(hsS.URL, "http://")
 		gohC := goat.NewGoatOverHttp(func(string, goat.RpcReadWriter) {}, func(src string) (string, error) { return serverAddr, nil })
 		defer gohC.Cancel()
-		hsC := httptest.NewServer(gohC)
+		refC := &refusalCounter{h: gohC}
+		hsC := httptest.NewServer(refC)
+		refused = func() int64 { return refS.n.Load() + refC.n.Load() }
 		defer hsC.Close()
 		clientAddr = strings.TrimPrefix(hsC.URL, "http://")
 		cc = goat.NewClientConn(gohC.NewConnection(serverAddr), "c0", kit.ServerName)
@@ -98,6 +128,19 @@ func execC01Net(t *testing.T, c C01Net) (v Verdict) {
 			}
 		}
 		mu.Unlock()
+		select {
+		case err := <-serveEnded:
+			// nobody stopped the server and the socket is intact: if its connection ended because an envelope could not be
+			// decoded, that envelope was one the library's own client had written for these calls
+			if err != nil && (strings.Contains(err.Error(), "proto") || strings.Contains(err.Error(), "invalid websocket message")) {
+				v.failf("%s: the server's connection ended because it could not decode an envelope of these calls (%v): they can never be answered", c.Transport, err)
+			}
+		default:
+		}
+		if n := refused(); n > 0 {
+			// every envelope posted here was produced by the library's own client or server from a well-formed call
+			v.failf("%s: the receiving end of the transport refused %d envelopes of these calls as malformed (400 Bad Request): those calls can never be answered", c.Transport, n)
+		}
 		if v.Fail != "" {
 			v.Info = kit.CaseInfo{Labels: []string{"net." + c.Transport}, NonTrivial: true, Key: fmt.Sprintf("%+v", c)}
 			return
